@@ -252,6 +252,25 @@ def awb (loopW : Bool) (retries : Nat) (dest r : Name) (data : Bytes) (fs : Dir)
 def atomicWriteBytes (dest r : Name) (data : Bytes) (fs : Dir) (σ : List Outcome) : Res :=
   awb true 80 dest r data fs σ
 
+/-! ## Text / JSON wrappers: serialise completely, then `atomic_write_bytes` -/
+
+/-- Outcome of turning the caller's value into bytes (`json.dumps`, CRLF normalisation,
+`str.encode`): the complete byte string, or a *content failure* after `k` bytes of output had
+been produced (lone surrogate → UnicodeEncodeError, unserialisable leaf → TypeError, reference
+cycle → ValueError, illegal key, a generator raising mid-iteration). -/
+inductive Ser where
+  | done (data : Bytes)
+  | contentFail (k : Nat)
+deriving DecidableEq, Repr, Inhabited
+
+/-- `atomic_write_text` / `atomic_write_json`: the whole document is serialised and encoded in
+memory BEFORE `_make_tmp` runs, so a content failure happens before any FS step. -/
+def writeSerialised (loopW : Bool) (retries : Nat) (dest r : Name) (s : Ser) (fs : Dir)
+    (σ : List Outcome) : Res :=
+  match s with
+  | .contentFail _ => fin .raised fs
+  | .done data => awb loopW retries dest r data fs σ
+
 /-! ## Callers (`engine/snapshot.py`, `io/log.py`) -/
 
 /-- `".meta"` -/
